@@ -34,12 +34,17 @@ def main():
         env = dict(os.environ, LMS_REPO=dst, LMS_OUT=os.path.join(tmp, "out"), LMS_FACTS_DIR=os.path.join(tmp, "facts"))
         rc = 0
         for p in props:
-            r = subprocess.run([os.path.join(VERIF, "check"), p] + [f for f in flags if f != "--compile"], env=env, stdout=subprocess.PIPE, stderr=subprocess.STDOUT, text=True)
+            r = subprocess.run([os.path.join(VERIF, "check"), p] + [f for f in flags if f not in ("--compile", "--show")], env=env, stdout=subprocess.PIPE, stderr=subprocess.STDOUT, text=True)
             lines = r.stdout.strip().splitlines()
             print("== %s exit=%d" % (p, r.returncode))
             for l in lines[:40]:
                 print("   " + l[:300])
             rc |= r.returncode
+            if "--show" in flags:
+                import glob, json
+                for f in sorted(glob.glob(os.path.join(tmp, "out", "reports", p + "-*.json"))):
+                    j = json.load(open(f))
+                    print("   >> " + j.get("key", "") + "\n      " + j.get("message", "").replace("\n", "\n      ")[:1200])
         return 0
     finally:
         shutil.rmtree(tmp, ignore_errors=True)
